@@ -33,6 +33,50 @@ def GetOutputPrice (outputAmt : Int) (inputReserve : Int) (outputReserve : Int) 
   let t9 ← Int_Add t8 OneInt
   some t9
 
+def calcExactIn_boughtTokenAmt_1 (exactSoldCoin : Coin) (inputReserve : Int) (outputReserve : Int) (param_Fee : Dec) : Option (Int) := do
+  let t1 ← GetInputPrice exactSoldCoin.amount inputReserve outputReserve param_Fee
+  some t1
+
+/-- rejects when true: `!inputReserve.IsPositive()` -/
+def calcExactIn_guard_1 (inputReserve : Int) : Option (Bool) := do
+  some (!(Int_IsPositive inputReserve))
+
+/-- rejects when true: `!outputReserve.IsPositive()` -/
+def calcExactIn_guard_2 (outputReserve : Int) : Option (Bool) := do
+  some (!(Int_IsPositive outputReserve))
+
+def calcExactOut_soldTokenAmt_1 (exactBoughtCoin : Coin) (inputReserve : Int) (outputReserve : Int) (param_Fee : Dec) : Option (Int) := do
+  let t1 ← GetOutputPrice exactBoughtCoin.amount inputReserve outputReserve param_Fee
+  some t1
+
+/-- rejects when true: `!inputReserve.IsPositive()` -/
+def calcExactOut_guard_1 (inputReserve : Int) : Option (Bool) := do
+  some (!(Int_IsPositive inputReserve))
+
+/-- rejects when true: `!outputReserve.IsPositive()` -/
+def calcExactOut_guard_2 (outputReserve : Int) : Option (Bool) := do
+  some (!(Int_IsPositive outputReserve))
+
+/-- rejects when true: `exactBoughtCoin.Amount.GTE(outputReserve)` -/
+def calcExactOut_guard_3 (exactBoughtCoin : Coin) (outputReserve : Int) : Option (Bool) := do
+  some (Int_GTE exactBoughtCoin.amount outputReserve)
+
+/-- rejects when true: `boughtTokenAmt.LT(output.Coin.Amount)` -/
+def TradeExactIn_guard_1 (boughtTokenAmt : Int) (output_Coin : Coin) : Option (Bool) := do
+  some (Int_LT boughtTokenAmt output_Coin.amount)
+
+/-- rejects when true: `soldTokenAmt.GT(input.Coin.Amount)` -/
+def TradeExactOut_guard_1 (soldTokenAmt : Int) (input_Coin : Coin) : Option (Bool) := do
+  some (Int_GT soldTokenAmt input_Coin.amount)
+
+/-- rejects when true: `boughtAmt.LT(output.Coin.Amount)` -/
+def DoubleExactIn_guard_1 (boughtAmt : Int) (output_Coin : Coin) : Option (Bool) := do
+  some (Int_LT boughtAmt output_Coin.amount)
+
+/-- rejects when true: `soldTokenAmt.GT(input.Coin.Amount)` -/
+def DoubleExactOut_guard_1 (soldTokenAmt : Int) (input_Coin : Coin) : Option (Bool) := do
+  some (Int_GT soldTokenAmt input_Coin.amount)
+
 def AddLiquidity_mintLiquidityAmt_1 (msg_ExactStandardAmt : Int) : Option (Int) := do
   some msg_ExactStandardAmt
 
@@ -184,6 +228,6 @@ def RemoveUnilateral_guard_5 (targetTokenAmtAfterFee : Int) (msg_MinToken : Coin
 def untranslated : List String := []
 
 /-- names of the translated definitions -/
-def translated : List String := ["GetInputPrice(inputAmt,inputReserve,outputReserve,fee)", "GetOutputPrice(outputAmt,inputReserve,outputReserve,fee)", "AddLiquidity_mintLiquidityAmt_1(msg_ExactStandardAmt)", "AddLiquidity_mintLiquidityAmt_2(msg_ExactStandardAmt)", "AddLiquidity_mintLiquidityAmt_3(liquidity,msg_ExactStandardAmt,standardReserveAmt)", "AddLiquidity_depositAmt_1(tokenReserveAmt,msg_ExactStandardAmt,standardReserveAmt)", "AddLiquidity_guard_1(standardDenom,msg_MaxToken)", "AddLiquidity_guard_2(mintLiquidityAmt,msg_MinLiquidity)", "AddLiquidity_guard_3(mintLiquidityAmt,msg_MinLiquidity)", "AddLiquidity_guard_4(standardReserveAmt,tokenReserveAmt,liquidity)", "AddLiquidity_guard_5(mintLiquidityAmt,msg_MinLiquidity)", "AddLiquidity_guard_6(depositAmt,msg_MaxToken)", "RemoveLiquidity_irisWithdrawnAmt_1(msg_WithdrawLiquidity,standardReserveAmt,liquidityReserve)", "RemoveLiquidity_tokenWithdrawnAmt_1(msg_WithdrawLiquidity,tokenReserveAmt,liquidityReserve)", "RemoveLiquidity_guard_1(standardReserveAmt,msg_MinStandardAmt)", "RemoveLiquidity_guard_2(tokenReserveAmt,msg_MinToken)", "RemoveLiquidity_guard_3(liquidityReserve,msg_WithdrawLiquidity)", "RemoveLiquidity_guard_4(irisWithdrawCoin,msg_MinStandardAmt)", "RemoveLiquidity_guard_5(tokenWithdrawCoin,msg_MinToken)", "AddUnilateral_numerator_1(deltaFeeUnilateral)", "AddUnilateral_denominator_1()", "AddUnilateral_square_1(denominator,tokenBalanceAmt,numerator,exactTokenAmt,lptBalanceAmt)", "AddUnilateral_mintLptAmt_1(squareBigInt,lptBalanceAmt)", "AddUnilateral_guard_1(msg_ExactToken,msg_CounterpartyDenom,read_k_GetStandardDenom_ctx)", "AddUnilateral_guard_2(mintLptAmt,msg_MinLiquidity)", "RemoveUnilateral_feeNumerator_1(deltaFeeUnilateral)", "RemoveUnilateral_feeDenominator_1()", "RemoveUnilateral_targetTokenNumerator_1(lptBalanceAmt,msg_ExactLiquidity,targetBalanceAmt,feeNumerator)", "RemoveUnilateral_targetTokenDenominator_1(lptBalanceAmt,feeDenominator)", "RemoveUnilateral_targetTokenAmtAfterFee_1(targetTokenNumerator,targetTokenDenominator)", "RemoveUnilateral_guard_1(msg_MinToken,msg_CounterpartyDenom,read_k_GetStandardDenom_ctx)", "RemoveUnilateral_guard_2(lptBalanceAmt,msg_ExactLiquidity)", "RemoveUnilateral_guard_3(lptBalanceAmt,msg_ExactLiquidity)", "RemoveUnilateral_guard_4(targetBalanceAmt,msg_MinToken)", "RemoveUnilateral_guard_5(targetTokenAmtAfterFee,msg_MinToken)"]
+def translated : List String := ["GetInputPrice(inputAmt,inputReserve,outputReserve,fee)", "GetOutputPrice(outputAmt,inputReserve,outputReserve,fee)", "calcExactIn_boughtTokenAmt_1(exactSoldCoin,inputReserve,outputReserve,param_Fee)", "calcExactIn_guard_1(inputReserve)", "calcExactIn_guard_2(outputReserve)", "calcExactOut_soldTokenAmt_1(exactBoughtCoin,inputReserve,outputReserve,param_Fee)", "calcExactOut_guard_1(inputReserve)", "calcExactOut_guard_2(outputReserve)", "calcExactOut_guard_3(exactBoughtCoin,outputReserve)", "TradeExactIn_guard_1(boughtTokenAmt,output_Coin)", "TradeExactOut_guard_1(soldTokenAmt,input_Coin)", "DoubleExactIn_guard_1(boughtAmt,output_Coin)", "DoubleExactOut_guard_1(soldTokenAmt,input_Coin)", "AddLiquidity_mintLiquidityAmt_1(msg_ExactStandardAmt)", "AddLiquidity_mintLiquidityAmt_2(msg_ExactStandardAmt)", "AddLiquidity_mintLiquidityAmt_3(liquidity,msg_ExactStandardAmt,standardReserveAmt)", "AddLiquidity_depositAmt_1(tokenReserveAmt,msg_ExactStandardAmt,standardReserveAmt)", "AddLiquidity_guard_1(standardDenom,msg_MaxToken)", "AddLiquidity_guard_2(mintLiquidityAmt,msg_MinLiquidity)", "AddLiquidity_guard_3(mintLiquidityAmt,msg_MinLiquidity)", "AddLiquidity_guard_4(standardReserveAmt,tokenReserveAmt,liquidity)", "AddLiquidity_guard_5(mintLiquidityAmt,msg_MinLiquidity)", "AddLiquidity_guard_6(depositAmt,msg_MaxToken)", "RemoveLiquidity_irisWithdrawnAmt_1(msg_WithdrawLiquidity,standardReserveAmt,liquidityReserve)", "RemoveLiquidity_tokenWithdrawnAmt_1(msg_WithdrawLiquidity,tokenReserveAmt,liquidityReserve)", "RemoveLiquidity_guard_1(standardReserveAmt,msg_MinStandardAmt)", "RemoveLiquidity_guard_2(tokenReserveAmt,msg_MinToken)", "RemoveLiquidity_guard_3(liquidityReserve,msg_WithdrawLiquidity)", "RemoveLiquidity_guard_4(irisWithdrawCoin,msg_MinStandardAmt)", "RemoveLiquidity_guard_5(tokenWithdrawCoin,msg_MinToken)", "AddUnilateral_numerator_1(deltaFeeUnilateral)", "AddUnilateral_denominator_1()", "AddUnilateral_square_1(denominator,tokenBalanceAmt,numerator,exactTokenAmt,lptBalanceAmt)", "AddUnilateral_mintLptAmt_1(squareBigInt,lptBalanceAmt)", "AddUnilateral_guard_1(msg_ExactToken,msg_CounterpartyDenom,read_k_GetStandardDenom_ctx)", "AddUnilateral_guard_2(mintLptAmt,msg_MinLiquidity)", "RemoveUnilateral_feeNumerator_1(deltaFeeUnilateral)", "RemoveUnilateral_feeDenominator_1()", "RemoveUnilateral_targetTokenNumerator_1(lptBalanceAmt,msg_ExactLiquidity,targetBalanceAmt,feeNumerator)", "RemoveUnilateral_targetTokenDenominator_1(lptBalanceAmt,feeDenominator)", "RemoveUnilateral_targetTokenAmtAfterFee_1(targetTokenNumerator,targetTokenDenominator)", "RemoveUnilateral_guard_1(msg_MinToken,msg_CounterpartyDenom,read_k_GetStandardDenom_ctx)", "RemoveUnilateral_guard_2(lptBalanceAmt,msg_ExactLiquidity)", "RemoveUnilateral_guard_3(lptBalanceAmt,msg_ExactLiquidity)", "RemoveUnilateral_guard_4(targetBalanceAmt,msg_MinToken)", "RemoveUnilateral_guard_5(targetTokenAmtAfterFee,msg_MinToken)"]
 
 end Irismod.Gen.PureCoinswap
